@@ -201,6 +201,19 @@ def run_case(case):
                         resid["lowpass"] = max(resid["lowpass"], e)
                         if not e <= 1e-9:
                             viol.append({"what": "truncation_changes_component_inside_cutoff", "tuple": tup, "field": nm, "rel": e, "padded": (nxe, nye)})
+                    # (f) ... and what lies strictly beyond the cut-off of an axis along which fewer modes were requested than the padded
+                    # grid holds is removed (a request that equals the padded size along one axis is not an over-request: the other
+                    # axis is still truncated)
+                    IXf, IYf = np.meshgrid(np.fft.fftfreq(nxe, 1.0 / nxe), np.fft.fftfreq(nye, 1.0 / nye))
+                    beyond = ((np.abs(IXf) > mx / 2) & (mx < nxe)) | ((np.abs(IYf) > my / 2) & (my < nye))
+                    if beyond.any():
+                        counters["beyond_cutoff_checks"] = counters.get("beyond_cutoff_checks", 0) + 1
+                        for nm, a in (("conc", ref_c), ("flx", ref_f)):
+                            A = np.fft.fft2(a)
+                            e = float(np.max(np.abs(A[:, beyond]))) / (float(np.max(np.abs(A))) or 1.0)
+                            resid["beyond_cutoff"] = max(resid.get("beyond_cutoff", 0.0), e)
+                            if not e <= 1e-12:
+                                viol.append({"what": "component_beyond_cutoff_survives_truncation", "tuple": tup, "field": nm, "rel": e, "padded": (nxe, nye)})
                 if trunc or px or py or nx % 2 or ny % 2:
                     sigs.append("|".join(map(str, tup)))
                 if sample is None and trunc:
